@@ -37,7 +37,9 @@ P = {
          "exhaustive routing battery with the matched-conversation oracle",
          "rejection of responses whose MAC no honest session produced is unforgeability (C04 gap), covered by the batteries; concrete group laws are hypotheses"),
  "C08": ("theorems: same length/structure, same evaluation function, fake record = (tape masking key, zero envelope, fake key), fields from fresh tape ranges, "
-         "no other finalization accepted; battery incl. fake-state freshness",
+         "no other finalization accepted; over histories: in every reachable world of the adversarial model any two login attempts (with or without a record) "
+         "drew their random fields from disjoint ranges of the one tape (induction over the operation list; sampler-prefix law proved for the 20 suites); "
+         "battery incl. fake-state freshness and a failing generator entry point",
          "client InvalidLogin on a fake response rests on a BadGuess event; validated by the battery"),
  "C09": ("byte-exact differential run model vs crate (a byte difference is itself the counterexample) + the nine RFC 9807 vectors of the repository replayed through "
          "both sides; theorems: labels regenerated from /repo/src equal the RFC's, and the model computes the RFC-shaped functions of Spec/Rfc.v (Expand-Label / "
@@ -50,15 +52,24 @@ P = {
          "serde framing not modelled (crate's own encodings spliced)"),
  "C12": ("PARTIAL: model totality (Coq termination checker), refusal of over-long inputs, reads within bounds (theorems); panic exploration under catch_unwind "
          "with overflow checks", "absence of panics in compiled Rust is explored, not proved"),
- "C13": ("theorems: each of the five persisted states produced by the API decodes from its native encoding to itself; reload battery over subsets x formats",
+ "C13": ("theorems: each of the five persisted states produced by the API decodes from its native encoding to itself; over histories: in the adversarial "
+         "world extended with crash operations (server restart, save and restore of any pending server or client session between any two steps) every "
+         "restore succeeds and the world reached equals that of the same history without crashes (induction over the operation list); reload battery "
+         "over subsets x formats, constant-byte tapes",
          "serde encodings not modelled (real round trips in the harness, model predicts no change)"),
  "C14": ("theorems: randomized password independent of the blind, re-registration same masking key, evaluation is a function of (seed, id, request) only; battery",
          "separation of different ids/passwords holds up to collisions; validated by the battery"),
  "C15": ("theorems: both finish steps use the KSF only at the OPRF output, None = default, failure = KsfError, stretched value bound into randomized_pwd; "
-         "call-log comparison with the crate", "Argon2 itself is replayed as a table"),
- "C16": ("PARTIAL: export-key formula at seal/open, stability, label separation (theorems); substring scan and separation battery",
+         "end to end: an accepted login used the registration's password, the registration's credential identifier and a stretching function that agrees "
+         "with the registration's on the OPRF output, or a collision is exhibited; call-log comparison with the crate, Argon2 instance variants, suites whose "
+         "default function is a zero-sized non-identity type",
+         "Argon2 itself is replayed as a table; the end-to-end theorem additionally assumes the scalar action free (proved for the toy suite)"),
+ "C16": ("PARTIAL: export-key formula at seal/open, stability - also against any server / any typed password: a login that opens the registration's envelope "
+         "returns the registration's export key or exhibits an HMAC / Expand collision -, separation from other registrations and from the auth / masking / "
+         "session keys, label separation (theorems); substring scan incl. serde encodings of in-memory objects, separation battery",
          "unaligned verbatim appearance is searched, not proved"),
- "C17": ("theorems: tape layout of every randomised operation (ranges, order, copies/derivations, untouched rest); raw determinism/tape-position comparison",
+ "C17": ("theorems: tape layout of every randomised operation (ranges, order, copies/derivations, untouched rest); over histories: any two server sessions of a "
+         "reachable world drew from disjoint ranges of the shared tape; raw determinism / tape-position comparison, rejection sampling with boundary keys, both builds",
          "blind layout is per group (checked by correspondence)"),
  "C18": ("theorems: never-failing external key = private key interface record, operations equal, only the two callbacks used, failures returned as Custom",
          "call counts are taken from the crate's own trace"),
